@@ -143,3 +143,12 @@ package annotations
 
 //@ func AnnotationHolder.Source props C10,C14
 //@ ensures result == holder.source
+
+// how often each annotation name occurs: a name is counted iff some attribute carries it, and then at least once
+//@ func AnnotationHolder.AttributeCounts props C18,C10,C14
+//@ ensures fresh(result)
+//@ ensures present: forall(x, string, indom(result, x) == hasAttr(holder, x))
+//@ ensures positive: forall(x, string, implies(indom(result, x), result[x] >= 1))
+//@ loop 0 invariant 0 <= _n && _n <= len(holder.attributes) && fresh(result)
+//@ loop 0 invariant forall(x, string, indom(result, x) == exists(k, 0, _n, holder.attributes[k].Name == x))
+//@ loop 0 invariant forall(x, string, implies(indom(result, x), result[x] >= 1))
